@@ -123,11 +123,18 @@ def all_pairs(rec, al, G, O, M, start, end, m, cls):
 def run_case(case, rec):
     import dynetx.algorithms as al
     d = Driver(case)
-    for op in case['ops']:
+    half = len(case['ops']) // 2
+    for i, op in enumerate(case['ops']):
         r = d.step(op)
         if r['actual'] != r['expected']:
             rec.note('outcome_mismatch(left to C01)')
             return False
+        if i + 1 == half and len(case['ops']) % 2 == 1 and d.M.ids() and case.get('q'):
+            # the same object is asked in the middle of its history too: an answer must not be remembered
+            Oh = pc.PathOracle(d.M)
+            u, v, start, end = pc.resolve(d.M, d.nodes, case['q'][-1])
+            one_query(rec, al, d.G, Oh, d.M, u, v, start, end, case['cls'] + ' (mid-history)')
+            rec.classify('queried mid-history too')
     G, M = d.G, d.M
     ids = M.ids()
     if not ids:
